@@ -43,9 +43,9 @@ def lowerB (c : UInt8) : UInt8 := if 65 ≤ c ∧ c ≤ 90 then c + 32 else c
 
 /-- the parameter filter of `construct_base_string` -/
 def collect (params : List (Bytes × Bytes)) : List (Bytes × Bytes) :=
-  params.filterMap fun (k, v) =>
-    if k == kSignature || k == kRealm then none
-    else some (k, if startsWith oauthPrefix k then unescape v else v)
+  params.filterMap fun p =>
+    if p.1 == kSignature || p.1 == kRealm then none
+    else some (p.1, if startsWith oauthPrefix p.1 then unescape p.2 else p.2)
 
 /-- `"&".join([escape(method.upper()), escape(base_string_uri), escape(normalized_params)])` -/
 def baseStringOf (method uri normParams : Bytes) : Bytes :=
